@@ -32,7 +32,7 @@ def generate(R, tier):
         for v in (4, 6):
             yield {"stream": "flags", "syn_mss": 1460, "spec": {"v": v, "flags": fl, "seq": fl % 3, "ack": (fl // 3) % 2 * 77, "urg": (fl // 7) % 2 * 5,
                                                                 "opts": "0101" + W.o_ts(fl % 2 * 9, (fl // 2) % 2 * 3)}}
-    kinds = range(256) if tier == "thorough" else [0, 1, 2, 3, 4, 5, 6, 8, 9, 255]
+    kinds = range(256) if tier == "thorough" else [0, 1, 2, 3, 4, 5, 6, 8, 9, 14, 15, 19, 25, 28, 29, 34, 255]   # incl. every kind Scapy knows a format for
     for kind in kinds:
         for ln in range(42):
             for tail in ("00", "01", "5a"):
@@ -126,3 +126,11 @@ def shrink(c):
     for k, v in (("tos", 0), ("fl", 0), ("evil", False), ("urg", 0), ("win", 8192), ("ttl", 64)):
         if s[k] != v:
             yield dict(c, spec=dict(c["spec"], **{k: v}))
+
+
+def classify(c, ir, mr, verdict, findings_list):
+    from harness import findings
+    if ir == {"err": "PacketError"} and isinstance(mr, dict) and "ok" in mr and findings.scapy_ao_short(findings.spec_opt_area(W.full(c["spec"]))) \
+            and any(f["id"] == "KF-scapy-ao" for f in findings_list):
+        return "KF-scapy-ao"
+    return None
